@@ -6,7 +6,7 @@ import hvgen
 import hvhist
 from hvgen import Mirror
 
-PROP_MODULES = ["HvsrVerif.Props.C06", "HvsrVerif.Props.C06Order"]
+PROP_MODULES = ["HvsrVerif.Props.C06", "HvsrVerif.Props.C06Order", "HvsrVerif.Props.C06Spec"]
 BRIDGE_MODULES = ["HvsrVerif.Bridge.C06"]
 
 
